@@ -216,7 +216,7 @@ def _worker_tree(T, tag):
 
 def worker_main():
     sys.path.insert(0, os.environ.get("CATTRS_SRC", "/repo/src"))
-    sys.setrecursionlimit(400)   # the self-referential literal union (finding F43) recurses until the limit
+    sys.setrecursionlimit(400)   # the self-referential literal union (finding F47) recurses until the limit
     batch = json.load(sys.stdin)
     tag = batch["tag"]
     out = {}
@@ -340,7 +340,7 @@ def gen_tree(rng, tid, tier):
             elif r < 0.40:
                 cfg["overrides"] = {}
             if literal and cfg["omit"] and rng.random() < 0.7:
-                cfg["omit"] = False          # keep most literal trees inside the theorem's scope (finding F44 otherwise)
+                cfg["omit"] = False          # keep most literal trees inside the theorem's scope (finding F48 otherwise)
             if strategy == "union":
                 cfg["tag_name"] = rng.choice(TAG_NAMES)
                 r = rng.random()
@@ -385,7 +385,7 @@ def fixed_trees():
                    {"cls": 2, "args": {"a": 1, "b": 2, "c": 3}}, {"cls": 3, "args": {"a": 1, "d": 3}}],
                   [cfg("auto", False), cfg("auto", True), cfg("union", False), cfg("union", True),
                    cfg("union", True, detailed=False)]))
-    # F43: the parent's own literal value is shared with a subclass that does not redefine the discriminator
+    # F47: the parent's own literal value is shared with a subclass that does not redefine the discriminator
     out.append(mk(-2, "attrs",
                   [node(-1, _fld(LIT_NAME, lit=["p"])), node(0, _fld("x")), node(0, _fld(LIT_NAME, lit=["q"]))],
                   [{"cls": 0, "args": {LIT_NAME: "p"}}, {"cls": 1, "args": {LIT_NAME: "p", "x": 1}},
@@ -403,7 +403,7 @@ def fixed_trees():
                   [node(-1, _fld("a")), node(0, _fld("b", dflt="const", dv=0))],
                   [{"cls": 0, "args": {"a": 1}}, {"cls": 1, "args": {"a": 1, "b": 2}}],
                   [cfg("auto", False), cfg("union", False)], kw_only=True))
-    # F44: defaulted literal discriminator omitted by omit_if_default
+    # F48: defaulted literal discriminator omitted by omit_if_default
     out.append(mk(-5, "attrs",
                   [node(-1, _fld(LIT_NAME, lit=["p"], dflt="const", dv="p")),
                    node(0, _fld(LIT_NAME, lit=["q"], dflt="const", dv="q"), _fld("x"))],
@@ -416,7 +416,7 @@ def fixed_trees():
                    {"cls": 2, "args": {"a": 1, "b": 2, "c": 3}}],
                   [cfg("auto", True, overrides={"b": {"rename": "rb"}}),
                    cfg("union", False, overrides={"a": {"rename": "ra"}}, tag_name="t", tags=["x", "y", "z"])]))
-    # F45: dataclass default_factory field taken for a required one; omit_if_default leaves it out -> the subclass is lost
+    # F49: dataclass default_factory field taken for a required one; omit_if_default leaves it out -> the subclass is lost
     out.append(mk(-7, "dc",
                   [node(-1, _fld("a")), node(0, _fld("e", dflt="factory", dv=1))],
                   [{"cls": 0, "args": {"a": 1}}, {"cls": 1, "args": {"a": 1}}, {"cls": 1, "args": {"a": 1, "e": 2}}],
@@ -590,7 +590,7 @@ def ref_payload_fits(T, cfg, c, u):
 
 
 def factory_key_region(T, cfg, D, u):
-    """region of finding F45 (and the only place where the outcome may depend on the iteration order of a set of
+    """region of finding F49 (and the only place where the outcome may depend on the iteration order of a set of
     strings, which the model leaves open): dataclasses, automatic strategy, the unstructured form lacks the key of a
     default_factory field of x's class - a key the disambiguator may have chosen to recognise the class by"""
     if not (T["kind"] == "dc" and cfg["strategy"] == "auto" and isinstance(u, dict)):
@@ -685,8 +685,8 @@ def _install_findings():
             return False
 
     @framework.finding("subclasses-literal-self-union-recursion")
-    def f43(case):
-        """F43: automatic strategy, RecursionError while structuring an instance of a class that has subclasses, one of
+    def f47(case):
+        """F47: automatic strategy, RecursionError while structuring an instance of a class that has subclasses, one of
         whose Literal values (of an attribute that is Literal-typed in every class below it) a strict descendant shares"""
         try:
             T, cfg = case["tree"], case["config"]
@@ -709,8 +709,8 @@ def _install_findings():
             return False
 
     @framework.finding("literal-discriminator-omitted")
-    def f44(case):
-        """F44: automatic strategy, KeyError while structuring: a Literal-typed attribute with a default was left out of
+    def f48(case):
+        """F48: automatic strategy, KeyError while structuring: a Literal-typed attribute with a default was left out of
         the unstructured form by omit_if_default"""
         try:
             T, cfg = case["tree"], case["config"]
@@ -725,8 +725,8 @@ def _install_findings():
 
 
     @framework.finding("dataclass-factory-default-taken-for-required")
-    def f45(case):
-        """F45: automatic strategy on dataclasses: the disambiguator takes a field that only has a default_factory for a
+    def f49(case):
+        """F49: automatic strategy on dataclasses: the disambiguator takes a field that only has a default_factory for a
         required one and keys a class on it; omit_if_default leaves the key out, so the instance is structured as the
         fallback class (silently, or rejected by forbid_extra_keys) - or not, depending on which of the class's unique
         keys the iteration order of a Python set offers first.  Recognised when: dataclass tree, automatic strategy, the
@@ -749,16 +749,16 @@ PENDING_FINDINGS = [
      "what": "include_subclasses with a union strategy on a converter with forbid_extra_keys=True: a class without "
              "subclasses keeps its own structure hook but gets the union's tagging unstructure hook, so "
              "structure(unstructure(x, unstructure_as=Leaf), Leaf) rejects the tag key (ForbiddenExtraKeysError: _type)"},
-    {"id": "F43", "property": "C14", "kind": "finding", "signature": "subclasses-literal-self-union-recursion",
+    {"id": "F47", "property": "C14", "kind": "finding", "signature": "subclasses-literal-self-union-recursion",
      "what": "include_subclasses, automatic strategy, Literal discriminator: when a class with subclasses shares one of "
              "its own literal values with a descendant (e.g. a subclass that does not redefine the field), the "
              "disambiguator answers Union[Parent, Child], the converter's union hook picks Parent and re-enters Parent's "
              "hook: RecursionError for every instance of the parent itself"},
-    {"id": "F44", "property": "C14", "kind": "finding", "signature": "literal-discriminator-omitted",
+    {"id": "F48", "property": "C14", "kind": "finding", "signature": "literal-discriminator-omitted",
      "what": "Literal discriminator attribute with a default + omit_if_default: unstructure leaves the key out and the "
              "disambiguation function reads data[<discriminator>] unconditionally: KeyError (also for a plain Union; "
              "C12's LitKeysPresent hypothesis)"},
-    {"id": "F45", "property": "C14", "kind": "finding", "signature": "dataclass-factory-default-taken-for-required",
+    {"id": "F49", "property": "C14", "kind": "finding", "signature": "dataclass-factory-default-taken-for-required",
      "what": "create_default_dis_func tests cl_fields[name].default in (NOTHING, MISSING): a dataclass field with only a "
              "default_factory counts as required and a class is keyed on it; with omit_if_default the key is absent, so "
              "P{a} / C(P){e = field(default_factory=...)}: structure(unstructure(C(a=1), P), P) returns P(a=1) - the "
